@@ -44,6 +44,7 @@ type FuncContract struct {
 	Aspect    string
 	Requires  []Clause
 	Ensures   []Clause
+	TrustedEnsures []Clause // assumed at call sites, NOT checked against the body (dependency semantics); listed as assumptions
 	Modifies  []ModTarget
 	HasMod    bool
 	Decreases *Clause
@@ -100,7 +101,7 @@ type ContractSet struct {
 	Groups map[string][]*TypeExpr // named groups of heap types: heaps NAME = T1, T2, ...
 }
 
-var kwRe = regexp.MustCompile(`^(func|extern|fun|ofun|heaps|axiom|lemma|aspect|requires|ensures|modifies|decreases|loop|pure|fresh|havocs|maypanic|panics|inline|assumed|props|noframe|uses)\b`)
+var kwRe = regexp.MustCompile(`^(func|extern|fun|ofun|heaps|axiom|lemma|aspect|requires|ensures|modifies|decreases|loop|pure|fresh|havocs|maypanic|panics|inline|assumed|props|noframe|uses|trusted_ensures)\b`)
 
 type rawItem struct {
 	kw   string
@@ -296,6 +297,12 @@ func (cs *ContractSet) load(path, pkgPath string) error {
 					return err
 				}
 				cur.Ensures = append(cur.Ensures, c)
+			case "trusted_ensures":
+				c, err := clause(it, it.text)
+				if err != nil {
+					return err
+				}
+				cur.TrustedEnsures = append(cur.TrustedEnsures, c)
 			case "decreases":
 				c, err := clause(it, it.text)
 				if err != nil {
